@@ -30,7 +30,7 @@ theorem length_assocSet {α β} [DecidableEq α] (m : List (α × β)) (k : α) 
     · simp only [h, if_false, List.length_cons, ih]
       omega
 
-theorem assocGet_isSome_iff {α β} [DecidableEq α] (m : List (α × β)) (k : α) :
+theorem assocGet_isSome_iff_key {α β} [DecidableEq α] (m : List (α × β)) (k : α) :
     (assocGet m k).isSome = true ↔ k ∈ m.map (·.1) := by
   induction m with
   | nil => simp [assocGet]
@@ -157,7 +157,7 @@ theorem sharedAdd_ok (sh : List (Str × List (Str × Sub))) (g c : Str) (s : Sub
       intro a ha b hb hab
       simp only [List.map_cons, List.map_nil, List.mem_singleton] at hb
       subst hb; subst hab
-      have := (assocGet_isSome_iff sh a).mpr ha
+      have := (assocGet_isSome_iff_key sh a).mpr ha
       rw [hm] at this
       cases this
     · intro x hx
